@@ -165,6 +165,62 @@ def _req(obs, rule, fi, title, good, detail, keypart, node=None):
 
 
 # ======================================================================================
+# helper calls inside canonical values
+# ======================================================================================
+def _resolve_helper(repo: Repo, fi: FuncInfo, name: str):
+    if not isinstance(name, str) or '.' in name and not name.startswith(fi.name):
+        return None
+    for cand in (f"{fi.name}.{name}", name):
+        if repo.has_func(fi.module, cand):
+            return repo.func(fi.module, cand)
+    return repo.resolve_symbol(fi.module, name)
+
+
+_HELPER_RESULTS: dict = {}
+
+
+def _single_result(h: FuncInfo):
+    """(parameter names, returned canonical value) of a helper that has exactly one path"""
+    key = (h.module, h.name, id(h.node))
+    if key not in _HELPER_RESULTS:
+        out = None
+        try:
+            mp = MethodPaths(h).run()
+            res = [r for r in mp.results if r[0] is not None]
+            if len(res) == 1 and len(mp.results) == 1 and not res[0][1] and not mp.loops:
+                out = ([a.arg for a in h.node.args.args], res[0][0])
+        except (Inconclusive, C.CanonError, Exception):
+            out = None
+        _HELPER_RESULTS[key] = out
+    return _HELPER_RESULTS[key]
+
+
+def expand_helper_calls(repo: Repo, fi: FuncInfo, t):
+    """Replace calls of single-path helper functions of the repository (nested, module-level or imported) by the
+    value they return, and projections of the resulting tuples by their components: a value computed through a
+    helper and the same value written out in place then have the same canonical form."""
+    if t is None:
+        return None
+
+    def f(a):
+        if a[0] == 'call' and isinstance(a[1], str) and len(a) == 3:
+            h = _resolve_helper(repo, fi, a[1])
+            if h is not None and h is not fi:
+                r = _single_result(h)
+                if r and len(r[0]) == len(a[2]):
+                    m = {('n', p): (x if C.is_poly(x) else C.atom(x)) for p, x in zip(r[0], a[2])}
+                    return C.as_poly(C.subst_atoms(r[1], m)) if C.is_poly(C.subst_atoms(r[1], m)) else C.atom(C.subst_atoms(r[1], m))
+        if a[0] == 'proj' and len(a) == 3:
+            inner = a[1]
+            sa = C.single_atom(inner) if C.is_poly(inner) else inner
+            if sa is not None and sa[0] == 'tuple' and isinstance(a[2], int) and a[2] < len(sa[1]):
+                e = sa[1][a[2]]
+                return e if C.is_poly(e) else C.atom(e)
+        return None
+    return C.rebuild(t, f)
+
+
+# ======================================================================================
 # integral
 # ======================================================================================
 def integral_spec(ctx, cls: str, rule: str = 'R10.1') -> List[Ob]:
@@ -173,6 +229,8 @@ def integral_spec(ctx, cls: str, rule: str = 'R10.1') -> List[Ob]:
     fi = repo.func(f"pyspike.{cls}", f"{cls}.integral")
     try:
         mp = MethodPaths(fi).run()
+        mp.results = [(expand_helper_calls(repo, fi, r[0]), [expand_helper_calls(repo, fi, c) for c in r[1]]) + tuple(r[2:])
+                      for r in mp.results]
     except (Inconclusive, C.CanonError) as e:
         return [inconclusive(rule, f"{fi.name}: paths enumerable", fi.loc(), str(e), construct=_fn(fi))]
     x = attr('self', 'x')
@@ -196,7 +254,8 @@ def integral_spec(ctx, cls: str, rule: str = 'R10.1') -> List[Ob]:
             y1, y2 = attr('self', 'y1'), attr('self', 'y2')
 
             def iv(x0, x1, a, b, t):
-                return call('intermediate_value', x0, x1, a, b, t)
+                # linear interpolation between (x0, a) and (x1, b) at t, written out
+                return C.add(a, C.div(C.mul(C.sub(b, a), C.sub(t, x0)), C.sub(x1, x0)))
             whole = call('np.sum', C.mul(C.sub(sl(x, C.ONE, None), sl(x, None, C.sub(xlen, C.ONE))), C.scale(C.add(y1, y2), '1/2')))
             Sm = C.sub(S, C.ONE)
             iva = iv(sub_(x, Sm), sub_(x, S), sub_(y1, Sm), sub_(y2, Sm), I0)
@@ -225,8 +284,6 @@ def integral_spec(ctx, cls: str, rule: str = 'R10.1') -> List[Ob]:
             obs.append(inconclusive(rule, f"{fi.name}: the three cases (no interval / same piece / general) are distinguished by "
                                     f"`interval is None` and `start > end` over the documented index searches", fi.loc(),
                                     f"paths: {[[C.show(c) for c in r[1]] for r in mp.results][:4]}", construct=f"{_fn(fi)}::cases"))
-        if cls == 'PieceWiseLinFunc':
-            obs.extend(_intermediate_value_spec(repo, fi, rule))
     else:
         y, m = attr('self', 'y'), attr('self', 'mp')
         whole = C.atom(('tuple', (call('np.sum', sl(y, C.ONE, C.sub(ln(y), C.ONE))), call('np.sum', sl(m, C.ONE, C.sub(ln(m), C.ONE))))))
@@ -250,8 +307,7 @@ def integral_spec(ctx, cls: str, rule: str = 'R10.1') -> List[Ob]:
             except (Inconclusive, C.CanonError) as e:
                 obs.append(inconclusive(rule, f"{g.name}: paths enumerable", g.loc(), str(e), construct=_fn(g)))
         # single interval: every path returns (sum of y[S:E], sum of mp[S:E]) with (S, E) = get_indices(interval)
-        gi_call = call(fi.name.split('.')[-1] + '.get_indices' if False else 'get_indices', A('interval'))
-        S_, E_ = C.atom(('proj', gi_call, 0)), C.atom(('proj', gi_call, 1))
+        S_, E_ = Sx(A('interval')), Ex(A('interval'))
         want_single = C.atom(('tuple', (call('np.sum', sl(y, S_, E_)), call('np.sum', sl(m, S_, E_)))))
         singles = [r for r in _pick(mp.results, [C.mk_not(none)]) if r[0] is not None and
                    not any('after-loop' in C.show(x) for x in [r[0]])]
